@@ -11,8 +11,9 @@ Parts
            x q in {0, 0.3, -1.2, pi/2}^n (+ one seed-generic q), and per state the vector palettes {0, e_i, generic}.
   windows  n = 4..7: the 7 cyclic windows of a fixed 7-joint sequence, q in {0.3, -1.2}^n (+ one seed-generic q).
   energy   every chain configuration of the two parts above: 50 RK4 steps (4 ms) of ForwardDynamics with zero torque
-           and zero tip wrench, total energy judged by the oracle (re-integrated with 2 ms / 1 ms steps over the same
-           0.2 s before a drift is called a violation, so that integrator truncation is not blamed on the library).
+           and zero tip wrench, total energy judged by the oracle.  A drift above 1e-6 is re-integrated over the same
+           0.2 s with the step halved (down to 62.5 us); it is a violation when two consecutive halvings fail to
+           reduce it 4-fold (RK4 truncation falls 16-fold per halving, a physical inconsistency does not fall).
   arms     the 6R arm of the test-suite and generated arms, given link frames / masses / inertias through
            setOrigins / setMassProperties, at a palette of states: the same physical clauses on the arm's data plus
            every Arm-level implementation against the port.
@@ -240,11 +241,16 @@ def eval_state(acc, mr, base, Ml, Gl, S, q, V, sidx):
     return
 
 
+ENERGY_LEVELS = 7
+
+
 def eval_energy(acc, mr, base, Ml, Gl, S, V):
     """Zero torque, zero tip wrench: total energy along 50 RK4 steps (4 ms each) of the library's ForwardDynamics.
-    RK4 is not symplectic: when the drift exceeds the tolerance the same 0.2 s are integrated again with 100 steps of
-    2 ms and then 200 of 1 ms.  Truncation error falls 16-fold per halving, a physical inconsistency does not; the case
-    is a violation only if the finest run still drifts."""
+    RK4 is not symplectic and the 500:1 mass ratios make some chains stiff, so a drift above the tolerance is not
+    blamed on the library at once: the same 0.2 s are integrated again with the step halved (up to 6 times, 62.5 us).
+    Truncation error falls about 16-fold per halving, a physical inconsistency does not fall at all.  Violation: the
+    drift is above the tolerance and two consecutive halvings each failed to reduce it 4-fold.  A chain whose drift is
+    still above the tolerance at the finest step although it keeps converging is counted as skipped (never seen)."""
     n = S.shape[1]
     q0 = np.array([(0.3, -1.2, np.pi / 2)[i % 3] for i in range(n)])
     qd0, g = V.qd_e, V.g_e
@@ -253,8 +259,8 @@ def eval_energy(acc, mr, base, Ml, Gl, S, V):
     c.update({"q": q0, "qd": qd0, "g": g, "dt": ENERGY_DT, "steps": ENERGY_STEPS})
     ke0 = dyn.kinetic(Ml, Gl, S, q0, qd0)
     pe0 = abs(dyn.potential(Ml, Gl, S, q0, g))
-    hist = []
-    for level in range(3):
+    hist, stalled, verdict = [], 0, "unresolved"
+    for level in range(ENERGY_LEVELS):
         k = 2 ** level
         try:
             traj = dyn.rk4(lambda q, qd: np.asarray(call("ForwardDynamics", mr.ForwardDynamics, q, qd, z, g, zF, Ml, Gl, S), float),
@@ -266,16 +272,26 @@ def eval_energy(acc, mr, base, Ml, Gl, S, V):
         ok = bool(np.all(np.isfinite(E)))
         sc = max(1.0, ke0 + pe0, max(abs(e) for e in E) if ok else 1.0)
         r = (max(E) - min(E)) / sc if ok else np.inf
-        hist.append(r)
         if r <= ENERGY_TOL:
+            hist.append(r)
+            verdict = "conserved"
             break
-        acc.outcome("energy_refined_level_%d" % (level + 1))
+        stalled = stalled + 1 if (hist and not r <= hist[-1] / 4.0) else 0
+        hist.append(r)
+        if stalled >= 2:
+            verdict = "drifts"
+            break
+        acc.outcome("energy_step_halved")
     acc.evals += 1
-    acc.resid("energy_drift", hist[-1])
     acc.resid("energy_drift_first_level", hist[0])
     acc.resid("energy_path_length", amax(traj[-1][0] - q0))
-    if not hist[-1] <= ENERGY_TOL:
+    acc.resid("energy_levels_used", len(hist))
+    if verdict == "conserved":
+        acc.resid("energy_drift", hist[-1])
+    elif verdict == "drifts":
         acc.violation("energy_drift", c, {"rel_per_level": hist, "E": E}, ENERGY_TOL)
+    else:
+        acc.skip("energy_stiff_chain_not_resolved_at_finest_step")
 
 
 # ------------------------------------------------------------------------------------------------ items
